@@ -137,7 +137,18 @@ def g_adiabatic(bases=('mol', 'wt'), kinds=('single', 'parallel', 'series'), pha
         s._thermal_condition._T = E.real('T0', lo=280, hi=450, nice=(300, 400))
         Q = E.real('Q', nice=(-1e5, 1e5))
         with_Q = E.choice(2, 'heat-input-given')
-        before = s.Hnet
+        if E.choice(2, 'enthalpy-read-in-the-other-phase-before'):
+            # history: the same stream object was looked at while tagged with the other phase (same T, P, flows)
+            ph0 = s.phase
+            s.phase = 'g' if ph0 == 'l' else 'l'
+            s.H
+            s.phase = ph0
+        # "before" is what a freshly created stream in the same state reports
+        twin = tmo.Stream(None, thermo=th, phase=s.phase)
+        S.inject(twin.imol.data, feed)
+        twin._thermo = stub
+        twin._thermal_condition._T = s._thermal_condition._T
+        before = twin.Hnet
         try:
             if with_Q:
                 rx.adiabatic_reaction(s, Q)
